@@ -109,6 +109,15 @@ def class_graphs(X, tag, tier):
             C = S(name("C"), {"a": A})
             D = S(name("D"), {"b": B, "c": C, "a": A})
             return {"A": A, "B": B, "C": C, "D": D}, [[D], [C, B], [D, A], [A, D]], False
+        if kind == "hybrid-depends_on":
+            # hybrid (python-dressed) classes: a dependency declared on the hybrid class must reach its data struct
+            Ap = type(name("Ap"), (X.HybridClass,), {"_xofields": {"x_max": X.Float64, "n_hits": X.Int64}})
+            apn = Ap._XoStruct.__name__
+            Tr = type(name("Tr"), (X.HybridClass,), {
+                "_xofields": {"scale": X.Float64}, "_depends_on": [Ap],
+                "_extra_c_sources": [f"/*gpufun*/ double {name('lim')}({apn} apt)" + "{ return " + f"{apn}_get_x_max(apt);" + "}"]})
+            Nest = type(name("Ne"), (X.HybridClass,), {"_xofields": {"t": Tr._XoStruct, "q": X.Int8}})
+            return {"Ap": Ap._XoStruct, "Tr": Tr._XoStruct, "Ne": Nest._XoStruct}, [[Tr._XoStruct], [Nest._XoStruct], [Nest._XoStruct, Ap._XoStruct]], False
         if kind == "cycle2":
             A1 = S(name("A"), {"x": X.Float64})
             B = S(name("B"), {"a": A1})
@@ -126,17 +135,18 @@ def class_graphs(X, tag, tier):
             return {"A": A1}, [[A1]], True
         raise ValueError(kind)
 
-    for kind in ("fieldless-parent", "chain", "array-ref-union", "depends_on", "diamond-fieldless", "cycle2", "cycle3", "selfcycle"):
+    for kind in ("fieldless-parent", "chain", "array-ref-union", "depends_on", "diamond-fieldless", "hybrid-depends_on", "cycle2", "cycle3", "selfcycle"):
         yield (kind,) + build(kind)
 
 
 def deps_of(cls):
+    """declared dependencies; a hybrid class stands for its data struct"""
     out = []
     if hasattr(cls, "_get_inner_types"):
         out += list(cls._get_inner_types())
     if hasattr(cls, "_depends_on"):
         out += list(cls._depends_on)
-    return out
+    return [getattr(d, "_XoStruct", d) for d in out]
 
 
 def run(tier, seed, compile_limit=None):
